@@ -11,7 +11,7 @@ m(E,"iast_point: [0,1] guard dropped", I, "    if numpy.any((adsorbed_mole_fract
 m(E,"iast_point: success test dropped", I, "    if not res.success:\n        raise CalculationError(\n            textwrap.dedent(\n                f\"\"\"\n                Root finding for adsorbed phase", "    if False:\n        raise CalculationError(\n            textwrap.dedent(\n                f\"\"\"\n                Root finding for adsorbed phase")
 m(E,"iast_point: same component on both sides of the objective", I, "            sp2 = isotherms[i + 1].spreading_pressure_at(\n                partial_pressures[i + 1] / ads_mole_frac2,\n                branch=branch,\n            )\n            spreading_pressure_diff[i] = sp1 - sp2\n\n        return spreading_pressure_diff\n\n    ###\n    #   Solve for mole fractions in adsorbed phase", "            sp2 = isotherms[i].spreading_pressure_at(\n                partial_pressures[i + 1] / ads_mole_frac2,\n                branch=branch,\n            )\n            spreading_pressure_diff[i] = sp1 - sp2\n\n        return spreading_pressure_diff\n\n    ###\n    #   Solve for mole fractions in adsorbed phase")
 m(E,"iast_point: fictitious pressure p*x", I, "    pressure0 = partial_pressures / adsorbed_mole_fractions", "    pressure0 = partial_pressures * adsorbed_mole_fractions")
-m(E,"iast_point: one component left out of the total loading", I, "    inverse_loading = 0.0\n    for i in range(n_components):\n        inverse_loading += adsorbed_mole_fractions[i] / isotherms[i].loading_at(pressure0[i])\n    loading_total = 1.0 / inverse_loading\n\n    # get loading of each component by multiplying by mole fractions\n    loadings = adsorbed_mole_fractions * loading_total\n    if verbose:", "    inverse_loading = 0.0\n    for i in range(n_components - 1):\n        inverse_loading += adsorbed_mole_fractions[i] / isotherms[i].loading_at(pressure0[i])\n    loading_total = 1.0 / inverse_loading\n\n    # get loading of each component by multiplying by mole fractions\n    loadings = adsorbed_mole_fractions * loading_total\n    if verbose:")
+m(E,"iast_point: one component left out of the total loading", I, "    inverse_loading = 0.0\n    for i in range(n_components):\n        inverse_loading += adsorbed_mole_fractions[i] / isotherms[i].loading_at(pressure0[i], branch=branch)\n    loading_total = 1.0 / inverse_loading\n\n    # get loading of each component by multiplying by mole fractions\n    loadings = adsorbed_mole_fractions * loading_total\n    if verbose:", "    inverse_loading = 0.0\n    for i in range(n_components - 1):\n        inverse_loading += adsorbed_mole_fractions[i] / isotherms[i].loading_at(pressure0[i], branch=branch)\n    loading_total = 1.0 / inverse_loading\n\n    # get loading of each component by multiplying by mole fractions\n    loadings = adsorbed_mole_fractions * loading_total\n    if verbose:")
 m(E,"reverse_iast: gas fraction guard only checks the lower side", I, "    if numpy.sum(gas_mole_fractions < 0.0) != 0 or numpy.sum(gas_mole_fractions > 1.0) != 0:", "    if numpy.sum(gas_mole_fractions < 0.0) != 0:")
 m(E,"iast_point_fraction normalises the fractions", I, "    partial_pressures = numpy.asarray(gas_mole_fraction) * total_pressure", "    partial_pressures = numpy.asarray(gas_mole_fraction) / numpy.sum(gas_mole_fraction) * total_pressure")
 m(E,"selectivity without the gas fractions", I, "(x[0] / mole_fractions[0]) / (x[1] / mole_fractions[1])", "x[0] / x[1]")
